@@ -135,6 +135,31 @@ theorem verifyOffChain_eq_translated (c : Chain) (bal : Nat) (t : VTx)
     | none =>
       by_cases h2 : bal < t.sysFee + t.netFee <;> simp [h2, offLabel]
 
+/-- the result of `uint256.Int.Cmp` -/
+def cmpNat (a b : Nat) : Int := if a < b then -1 else if a = b then 0 else 1
+
+theorem cmpNat_neg (a b : Nat) : cmpNat a b < 0 ↔ a < b := by
+  unfold cmpNat
+  by_cases h1 : a < b
+  · simp [h1]
+  · by_cases h2 : a = b <;> simp [h1, h2]
+
+/-- `mempool.checkBalance` (mem_pool.go:218-230), translated, makes the two balance decisions of the
+model's scratch pool (`poolAddE`: ErrInsufficientFunds when the balance does not cover this transaction's
+fees, ErrConflict when it does not cover them on top of the sender's pooled fees), in this order. -/
+theorem checkBalance_eq_translated (bal fee pooled : Nat) :
+    (GoFuncs.mempoolCheckBalance (cmpNat bal fee) (cmpNat bal (fee + pooled))).2.1 =
+      (if bal < fee then "ErrInsufficientFunds" else if bal < fee + pooled then "ErrConflict" else "ok") := by
+  unfold GoFuncs.mempoolCheckBalance
+  simp only [cmpNat_neg]
+  by_cases h1 : bal < fee
+  · simp [h1]
+  · by_cases h2 : bal < fee + pooled <;> simp [h1, h2]
+
+example : (GoFuncs.mempoolCheckBalance (cmpNat 10 11) (cmpNat 10 20)).2.1 = "ErrInsufficientFunds" ∧
+    (GoFuncs.mempoolCheckBalance (cmpNat 10 10) (cmpNat 10 11)).2.1 = "ErrConflict" ∧
+    (GoFuncs.mempoolCheckBalance (cmpNat 10 4) (cmpNat 10 10)).2.1 = "ok" := by decide
+
 -- non-vacuity (the leaves of a transaction that is expired AND underpays; of a valid one)
 example : GoFuncs.verifyAndPoolTx false 10 false 10 100 false 250 1000 0 5 false false false false false false false false false false false
     = txLabel (some .expired) := by decide
